@@ -20,3 +20,10 @@ func VerifNewView() VerifShardView                                { return Verif
 func (v VerifShardView) Update(updates []dragonboat.ShardView)    { v.v.update(updates) }
 func (v VerifShardView) Copy() []dragonboat.ShardView             { return v.v.copy() }
 func (v VerifShardView) ShardInfo(id uint64) dragonboat.ShardView { return v.v.shardInfo(id) }
+
+// The memberlist push/pull delegate of c (same view, same local info source), reachable without a network.
+func (c *Cluster) verifDelegate() *delegate {
+	return &delegate{shardView: c.shardView, infoF: c.infoF}
+}
+func (c *Cluster) VerifLocalState() []byte          { return c.verifDelegate().LocalState(false) }
+func (c *Cluster) VerifMergeRemoteState(buf []byte) { c.verifDelegate().MergeRemoteState(buf, false) }
